@@ -7,6 +7,7 @@ export GOFLAGS=-mod=mod GOPROXY=off GOSUMDB=off GOTOOLCHAIN=local
 TMP=$(mktemp -d)
 trap 'rm -rf "$TMP"' EXIT
 NAME=$(basename "$T")
-printf '{"Replace":{"%s/%s/zz_%s":"%s"}}\n' "$REPO" "$PKG" "$NAME" "$(readlink -f "$T")" > "$TMP/ov.json"
+DEST=$(readlink -m "$REPO/$PKG/zz_$NAME")
+printf '{"Replace":{"%s":"%s"}}\n' "$DEST" "$(readlink -f "$T")" > "$TMP/ov.json"
 RUN=$(grep -o 'func Test[A-Za-z0-9_]*' "$T" | sed 's/func //' | paste -sd'|')
 cd "$REPO/$PKG" && go test -overlay "$TMP/ov.json" -vet=off -count=1 -timeout 120s -run "^($RUN)\$" .
